@@ -77,10 +77,33 @@ def len_records(m):
     return m["traces"]
 
 
+def writer_mechanism(s, known):
+    """The how-layer: Writer.tla model-checked for N = 1..4 tracks, the two named deviations must yield their
+    design-level counterexamples, and step-level traces of the real midix writer (in-process, verif hooks) are
+    validated against the same actions."""
+    quick = s.tier == "quick"
+    for n in (1, 2, 3) if quick else (1, 2, 3, 4, 5):
+        s.model("WriterMC", workers=8, constants={"N": n, "L": 4 if quick else 5})
+    s.model("WriterMC", cfg="WriterDevShared.cfg", workers=2, expect_violation="EOTInv")
+    s.model("WriterMC", cfg="WriterDevDrop.cfg", workers=2, expect_violation="EOTInv")
+    if not s.inproc_ok:
+        return
+    for n in (1, 2, 3, 6) if quick else (1, 2, 3, 4, 5, 8, 16):
+        m = s.drive("writer", binary=s.vinproc, args=["-n", str(n)])
+        s.validate(m, "WriterTrace", known=known, shard=max(10, len_records(m) // 4 + 1), constants={"N": n})
+        if n == 2:
+            def corrupt(rec):
+                ev = rec["events"][len(rec["events"]) // 2]
+                ev["tpend"][-1] += 1
+            s.binding_selftest(m, "WriterTrace", corrupt, constants={"N": n}, expect="Conforms")
+
+
 def _write(prop, driver, expl):
     def plan(s, known):
-        s.build()
+        s.build(need_inproc=prop in ("C02", "C06"))
         s.model("TheoryMC", workers=4)
+        if prop in ("C02", "C06"):
+            writer_mechanism(s, known)
         m = s.drive(driver)
         s.validate(m, "WriteTrace", cfg=prop + "Trace.cfg", known=known, shard=max(20, len_records(m) // 12 + 1))
         return dict(level="model_checking", explanation=expl)
